@@ -13,9 +13,11 @@ package main
 // if-chain, early return, flag variable).
 
 import (
+	"fmt"
 	"go/constant"
 	"go/token"
 	"go/types"
+	"strings"
 
 	"golang.org/x/tools/go/ssa"
 )
@@ -36,7 +38,27 @@ type pwPath struct {
 	consts    map[ssa.Value]constant.Value
 	alias     map[ssa.Value]ssa.Value
 	tuples    map[ssa.Value][]ssa.Value
+	mem       map[string]ssa.Value // store-to-load forwarding: address key -> last stored value on this path
+	stores    map[string]ssa.Value // every store on the path (last value per address), never invalidated
 	seed      func(*pwPath, ssa.Value) (constant.Value, bool)
+}
+
+// addrKey is a canonical key for the address of a field of a (resolved)
+// object or of a local cell; "" when the address is not tracked.
+func (p *pwPath) addrKey(a ssa.Value) string {
+	switch x := a.(type) {
+	case *ssa.FieldAddr:
+		return fmt.Sprintf("%p.%d", p.resolve(x.X), x.Field)
+	case *ssa.Alloc:
+		return fmt.Sprintf("%p", x)
+	}
+	return ""
+}
+
+// fieldOfObj returns the value last stored on this path into field idx of the object obj.
+func (p *pwPath) fieldOfObj(obj ssa.Value, idx int) (ssa.Value, bool) {
+	v, ok := p.stores[fmt.Sprintf("%p.%d", p.resolve(obj), idx)]
+	return v, ok
 }
 
 type pwFrame struct {
@@ -85,6 +107,14 @@ func (p *pwPath) clone() *pwPath {
 	q.tuples = make(map[ssa.Value][]ssa.Value, len(p.tuples))
 	for k, v := range p.tuples {
 		q.tuples[k] = v
+	}
+	q.mem = make(map[string]ssa.Value, len(p.mem))
+	for k, v := range p.mem {
+		q.mem[k] = v
+	}
+	q.stores = make(map[string]ssa.Value, len(p.stores))
+	for k, v := range p.stores {
+		q.stores[k] = v
 	}
 	return q
 }
@@ -247,7 +277,7 @@ func (pw *pathWalker) walk(fn *ssa.Function) {
 		return
 	}
 	root := &pwFrame{fn: fn}
-	st := &pwState{frame: root, block: fn.Blocks[0], p: &pwPath{seed: pw.seed, consts: map[ssa.Value]constant.Value{}, alias: map[ssa.Value]ssa.Value{}, tuples: map[ssa.Value][]ssa.Value{}},
+	st := &pwState{frame: root, block: fn.Blocks[0], p: &pwPath{seed: pw.seed, consts: map[ssa.Value]constant.Value{}, alias: map[ssa.Value]ssa.Value{}, tuples: map[ssa.Value][]ssa.Value{}, mem: map[string]ssa.Value{}, stores: map[string]ssa.Value{}},
 		decided: map[ssa.Value]bool{}, visits: map[*ssa.BasicBlock]int{}, inlined: map[*ssa.Function]bool{fn: true}}
 	work := []*pwState{st}
 	for len(work) > 0 {
@@ -326,7 +356,36 @@ func (pw *pathWalker) run(s *pwState) []*pwState {
 				}
 				s.p.events = append(s.p.events, ins)
 				s.p.evDecided = append(s.p.evDecided, len(s.p.decisions))
-			case *ssa.Store, *ssa.MapUpdate, *ssa.Defer, *ssa.Go, *ssa.Send:
+				// a callee may write through any pointer it can reach: forget what is not a local cell
+				if _, isBuiltin := x.Call.Value.(*ssa.Builtin); !isBuiltin {
+					for k := range s.p.mem {
+						if strings.Contains(k, ".") {
+							delete(s.p.mem, k)
+						}
+					}
+				}
+			case *ssa.Store:
+				if k := s.p.addrKey(x.Addr); k != "" {
+					v := s.p.resolve(x.Val)
+					s.p.mem[k] = v
+					s.p.stores[k] = v
+				}
+				s.p.events = append(s.p.events, ins)
+				s.p.evDecided = append(s.p.evDecided, len(s.p.decisions))
+			case *ssa.UnOp:
+				if x.Op == token.MUL {
+					if k := s.p.addrKey(x.X); k != "" {
+						if v, ok := s.p.mem[k]; ok {
+							s.p.alias[x] = v
+						}
+					}
+				}
+			case *ssa.BinOp:
+				if x.Op == token.QUO || x.Op == token.REM {
+					s.p.events = append(s.p.events, ins)
+					s.p.evDecided = append(s.p.evDecided, len(s.p.decisions))
+				}
+			case *ssa.MapUpdate, *ssa.Defer, *ssa.Go, *ssa.Send:
 				s.p.events = append(s.p.events, ins)
 				s.p.evDecided = append(s.p.evDecided, len(s.p.decisions))
 			case *ssa.Return:
